@@ -322,7 +322,7 @@ Theorem c04_only_optional_omitted_partial : forall reqf apex cls wide recs z buf
     decode_msg (firstn len b) = Some m /\
     match answering z neg_ttl w_iface qname qtype w with
     | Ok _ =>
-      exists r, answer_rec z qname qtype tcp = Some r /\
+      exists r, (forall tcp', answer_rec z qname qtype tcp' = Some r) /\
         ResolveRepr.norm_rec r = ResolveS.resolve reqf apex cls (accepted apex cls recs) qname qtype /\
         Forall2 (rr_rel xparts) (map q2a (rc_an r)) (m_an m) /\
         Forall2 (rr_rel xparts) (map q2a (rc_ns r)) (m_ns m) /\
@@ -358,8 +358,8 @@ Proof. intros. eapply respond_w_endings; eauto. Qed.
    limit, the response decodes, and IF ITS TC BIT IS CLEAR AND ITS RCODE IS NOT SERVFAIL then its answer and authority
    sections are those of the idealised complete answer r (= resolve, C05) and its additional section is r's minus some
    records of the optional tail (plus the OPT).  A UDP response with TC clear therefore differs from the complete response
-   to the same question only by omitted additional records.  (What is still only in c04_glue_complete_partial: that the
-   kept prefix M contains all in-bailiwick glue — there for direct referrals.) *)
+   to the same question only by omitted additional records, none of which is in-bailiwick (owner at/below the owner of
+   an authority record): referral glue is never omitted, however the referral is reached. *)
 Theorem c04_clause_iv : forall reqf apex cls wide recs z buf tcp id rd qname qtype qclass edns limit,
   (forall c t a b d, reqf c t a b = true -> reqf c t b d = true -> reqf c t a d = true) ->
   zone_build reqf (zone_new apex cls wide) recs = Some z ->
@@ -370,7 +370,7 @@ Theorem c04_clause_iv : forall reqf apex cls wide recs z buf tcp id rd qname qty
     respond_w neg_ttl buf tcp id rd qname qtype qclass edns limit z = Some (len, b) /\
     decode_msg (firstn len b) = Some m /\
     (tc_bit m = false -> rcode_of_msg m <> 2%N ->
-     exists r, answer_rec z qname qtype tcp = Some r /\
+     exists r, (forall tcp', answer_rec z qname qtype tcp' = Some r) /\
        ResolveRepr.norm_rec r = ResolveS.resolve reqf apex cls (accepted apex cls recs) qname qtype /\
        Forall2 (rr_rel xparts) (map q2a (rc_an r)) (m_an m) /\
        Forall2 (rr_rel xparts) (map q2a (rc_ns r)) (m_ns m) /\
@@ -380,6 +380,58 @@ Theorem c04_clause_iv : forall reqf apex cls wide recs z buf tcp id rd qname qty
          m_ar m = dsM ++ dsX ++ dsP /\ Forall2 (rr_rel xparts) M dsM /\ Forall2 (rr_rel xparts) X dsX /\
          forallb is_pseudo dsP = true).
 Proof. exact respond_w_clause_iv. Qed.
+
+(* CLAUSE (iv) AS A COMPARISON OF TWO RUNS.  `differs_only_by_omissions r m`: the decoded message m has the answer and
+   authority sections of the complete answer r, and its additional section is r's without some records of an optional
+   tail none of which is in-bailiwick (so never referral glue), followed only by pseudo-records (the OPT). *)
+Definition differs_only_by_omissions (r : recorder) (m : MsgWriterS.dmsg) : Prop :=
+  Forall2 (rr_rel xparts) (map q2a (rc_an r)) (m_an m) /\
+  Forall2 (rr_rel xparts) (map q2a (rc_ns r)) (m_ns m) /\
+  exists M X Oq dsM dsX dsP,
+    map q2a (rc_ar r) = M ++ map q2a Oq /\ Sub X (map q2a Oq) /\
+    Forall (fun q => ~ in_bailiwick (rc_ns r) q) Oq /\
+    m_ar m = dsM ++ dsX ++ dsP /\ Forall2 (rr_rel xparts) M dsM /\ Forall2 (rr_rel xparts) X dsX /\
+    forallb is_pseudo dsP = true.
+
+(* The same question asked over UDP and over TCP (any buffers >= 512, ids, RD bits, EDNS states and limits on either
+   side): both responses decode; the TCP one never has TC set; and if the UDP response has TC clear and neither is
+   SERVFAIL, there is ONE complete answer r (the RFC resolution algorithm's, C05) from which BOTH differ only by omitted
+   not-in-bailiwick additional records: equal answer sections, equal authority sections, all glue present in both. *)
+Theorem c04_clause_iv_two_runs : forall reqf apex cls wide recs z qname qtype qclass
+    bufU idU rdU ednsU limitU bufT idT rdT ednsT limitT,
+  (forall c t a b d, reqf c t a b = true -> reqf c t b d = true -> reqf c t a d = true) ->
+  zone_build reqf (zone_new apex cls wide) recs = Some z ->
+  Forall (fun r => good_rd (r_rdata r) /\ (r_type r < 65536)%N) recs -> good_name apex -> (cls < 65536)%N ->
+  good_name qname -> in_zone apex qname = true -> (qtype < 65536)%N -> (qclass < 65536)%N ->
+  512 <= length bufU -> (idU < 65536)%N -> (forall s, ednsU = Some s -> (s < 65536)%N) ->
+  512 <= length bufT -> (idT < 65536)%N -> (forall s, ednsT = Some s -> (s < 65536)%N) ->
+  exists lenU bU mU lenT bT mT,
+    respond_w neg_ttl bufU false idU rdU qname qtype qclass ednsU limitU z = Some (lenU, bU) /\
+    decode_msg (firstn lenU bU) = Some mU /\
+    respond_w neg_ttl bufT true idT rdT qname qtype qclass ednsT limitT z = Some (lenT, bT) /\
+    decode_msg (firstn lenT bT) = Some mT /\
+    tc_bit mT = false /\
+    (tc_bit mU = false -> rcode_of_msg mU <> 2%N -> rcode_of_msg mT <> 2%N ->
+     exists r, (forall tcp, answer_rec z qname qtype tcp = Some r) /\
+       ResolveRepr.norm_rec r = ResolveS.resolve reqf apex cls (accepted apex cls recs) qname qtype /\
+       differs_only_by_omissions r mU /\ differs_only_by_omissions r mT).
+Proof.
+  intros reqf apex cls wide recs z qname qtype qclass bufU idU rdU ednsU limitU bufT idT rdT ednsT limitT
+         Ht Hb Hrecs Ga Hc Gq Hz Hqt Hqc HbU HidU HeU HbT HidT HeT.
+  destruct (c04_clause_iv reqf apex cls wide recs z bufU false idU rdU qname qtype qclass ednsU limitU
+              Ht Hb Hrecs Ga Hc HbU Gq Hz HidU Hqt Hqc HeU) as (lenU & bU & mU & EU & DU & HU).
+  destruct (c04_clause_iv reqf apex cls wide recs z bufT true idT rdT qname qtype qclass ednsT limitT
+              Ht Hb Hrecs Ga Hc HbT Gq Hz HidT Hqt Hqc HeT) as (lenT & bT & mT & ET & DT & HT).
+  destruct (c04_tc_on_the_octets reqf apex cls wide recs z neg_ttl bufT true idT rdT qname qtype qclass ednsT limitT
+              Ht Hb Hrecs Ga Hc HbT Gq Hz HidT Hqt Hqc HeT) as (lenT' & bT' & mT' & ET' & DT' & Htc & _).
+  rewrite ET in ET'. inversion ET'; subst lenT' bT'. rewrite DT in DT'. inversion DT'; subst mT'.
+  exists lenU, bU, mU, lenT, bT, mT. split; [exact EU|]. split; [exact DU|]. split; [exact ET|]. split; [exact DT|].
+  split; [exact (Htc eq_refl)|]. intros TU RU RT.
+  destruct (HU TU RU) as (r & Hr & Hres & HanU & HnsU & HarU).
+  destruct (HT (Htc eq_refl) RT) as (r' & Hr' & _ & HanT & HnsT & HarT).
+  assert (r' = r) by (pose proof (Hr true) as A; rewrite (Hr' true) in A; inversion A; reflexivity). subst r'.
+  exists r. split; [exact Hr|]. split; [exact Hres|]. split; [exact (conj HanU (conj HnsU HarU))|exact (conj HanT (conj HnsT HarT))].
+Qed.
 
 (* Non-vacuity: zone a. with the delegation sub.a. NS ns.sub.a. / NS ns.other. and the glue ns.sub.a. A 5.6.7.8:
    the lookup of x.sub.a. is a referral, its glue list is that one A record, and do_referral succeeds in 512 octets. *)
@@ -404,6 +456,7 @@ Example c04_glue_example :
 Proof. vm_compute. split; [reflexivity|exact I]. Qed.
 
 Print Assumptions c04_clause_iv.
+Print Assumptions c04_clause_iv_two_runs.
 Print Assumptions c04_endings_on_the_octets.
 Print Assumptions c04_only_optional_omitted_partial.
 Print Assumptions c04_glue_complete_partial.
